@@ -614,6 +614,11 @@ func pathDependence() []*Scenario {
 		{`{"a":1,"b":2}`, []string{"a", "a.k"}, `{"k":"v"}`, false, nil, `{"a":{"k":{"k":"v"}},"b":2}`},
 		{`{"a":1,"b":2}`, []string{"a.k", "a"}, `{"k":"v"}`, false, nil, `{"a":{"k":"v"},"b":2}`},
 		{`{"user":{"name":"x"},"b":1}`, []string{"user", "user.name"}, `"<Any value>"`, false, nil, `{"user":"<Any value>","b":1}`},
+		// member names that look like path syntax of another notation are just names
+		{`{"$":{"id":1},"id":2}`, []string{"$.id"}, `"<Any value>"`, true, nil, `{"$":{"id":"<Any value>"},"id":2}`},
+		{`{"$":{"id":1},"id":2}`, []string{"id"}, `"<Any value>"`, true, nil, `{"$":{"id":1},"id":"<Any value>"}`},
+		{`{"items[0]":{"id":1},"items":[{"id":2}]}`, []string{"items.0.id"}, `"<Any value>"`, true, nil, `{"items[0]":{"id":1},"items":[{"id":"<Any value>"}]}`},
+		{`{"a":{"b":1},"a/b":2,"a b":3}`, []string{"a.b"}, `"<Any value>"`, true, nil, `{"a":{"b":"<Any value>"},"a/b":2,"a b":3}`},
 	}
 	var scs []*Scenario
 	for i, h := range cases {
@@ -743,6 +748,42 @@ func checkC17(c *CheckCtx) error {
 			sc.Note = fmt.Sprintf("Type[%s](%q) on {items: array, obj: object} via %s, must fail=%v", hc.t, hc.path, api, hc.fail)
 			scs = append(scs, sc)
 			c.nontrivial(sc.Note)
+		}
+	}
+	// many failures in one call: every one of them is named (12 and 25 missing paths; one matcher with
+	// many paths and many matchers with one path each)
+	for i, n := range []int{12, 25} {
+		for _, api := range []string{"json", "sjson", "yaml"} {
+			for _, split := range []bool{false, true} {
+				var paths []string
+				var fails [][2]string
+				for k := 0; k < n; k++ {
+					p := fmt.Sprintf("missing.path%02d", k)
+					if api == "yaml" {
+						p = "$." + p
+					}
+					paths = append(paths, p)
+					fails = append(fails, [2]string{"Any", p})
+				}
+				ms := []*Matcher{{M: "any", Paths: paths}}
+				if split {
+					ms = nil
+					for _, p := range paths {
+						ms = append(ms, &Matcher{M: "any", Paths: []string{p}})
+					}
+				}
+				doc := `{"a":1,"after":false}`
+				if api == "yaml" {
+					doc = "a: 1\nafter: false\n"
+				}
+				sc := &Scenario{ID: fmt.Sprintf("mm%d%s%v", i, api, split), Configs: stdConfigs(), Program: []string{"TestA"}}
+				sc.Procs = append(sc.Procs, &Proc{Spec: procSpec("default"), Steps: []*Step{{Op: "begin", Name: "TestA"},
+					{Op: "match", Name: "TestA", API: api, Cfg: "c", Val: strVal(doc), Matchers: ms, X: &Expect{MFail: fails}},
+					{Op: "match", Name: "TestA", API: api, Cfg: "c", Val: strVal(doc)}, {Op: "end", Name: "TestA"}}})
+				sc.Note = fmt.Sprintf("%d failing paths in one %s call (one matcher per path: %v)", n, api, split)
+				scs = append(scs, sc)
+				c.nontrivial(sc.Note)
+			}
 		}
 	}
 	c.sample(map[string]any{"source": "MC_Docs case", "document": failing[0].D, "matchers": failing[0].MS, "must_be_named": failing[0].Errs})
